@@ -41,7 +41,8 @@ Ltac mstep :=
   first
   [ rewrite last_app1 | rewrite pop_app1 | rewrite upd_last_app1 | rewrite length_app1_eqb0
   | rewrite bind_some | rewrite bind_ret_r | rewrite eq_arity_matches | rewrite rev_involutive
-  | rewrite dupdate_one
+  | rewrite dupdate_one | rewrite app_nil_r
+  | progress unfold extendleft_, reversed_, ret, raise_
   | progress cbn [bind ret raise_ fst snd rev List.length Nat.eqb negb app reversed_ extendleft_] ].
 Ltac mrun := repeat mstep.
 
@@ -104,28 +105,283 @@ Section Str.
   End While.
 End Str.
 
-Lemma gen_str_eq ps t : gen_str ps t = Some (str_tree ps t).
-Proof.
-  unfold gen_str; try reflexivity. cbv zeta.
+Ltac str_script ps :=
+  cbv zeta;
   match goal with |- bind (for_ _ ?body _) _ = _ =>
-    assert (Hb : forall x m, body x (Gs m) = Some (Next, Gs (step (fmt ps) m x)))
+    assert (Hb : forall x m, body x (Gs m) = Some (Next, Gs (step (fmt ps) m x)));
+    [ intros x [cur st]; unfold Gs, step; cbn [fst snd];
+      match goal with |- context [while_ _ ?C ?B _] =>
+        assert (Hc : forall st cur p a, C (rev st ++ [(p, a)], cur) = Some (arity_matches (List.length a) p))
+          by (intros; mrun; reflexivity);
+        assert (Hbs : forall st cur p a, arity_matches (List.length a) p = true ->
+                  B (rev st ++ [(p, a)], cur) =
+                  Some (match st with
+                        | [] => (Break, ([], fmt ps p a))
+                        | (p2, a2) :: st2 => (Next, (rev st2 ++ [(p2, a2 ++ [fmt ps p a])], fmt ps p a))
+                        end))
+          by (intros st0 cur0 p a E; mrun; rewrite (gen_format_eq ps p a E); mrun;
+              destruct st0 as [|[p2 a2] st2]; mrun; reflexivity);
+        rewrite (while_unwind ps C B Hc Hbs st _ cur x [])
+          by (rewrite app_length, rev_length; cbn; apply Nat.lt_succ_r, Nat.le_add_r)
+      end;
+      reflexivity
+    | change (@nil (node * list string), "") with (Gs ("", []));
+      rewrite (for_sim Gs _ _ Hb); reflexivity ]
   end.
-  { intros x [cur st]. unfold Gs, step. cbn [fst snd].
-    match goal with |- context [while_ _ ?C ?B _] =>
-      assert (Hc : forall st cur p a, C (rev st ++ [(p, a)], cur) = Some (arity_matches (List.length a) p))
-        by (intros; mrun; reflexivity);
-      assert (Hbs : forall st cur p a, arity_matches (List.length a) p = true ->
-                B (rev st ++ [(p, a)], cur) =
-                Some (match st with
-                      | [] => (Break, ([], fmt ps p a))
-                      | (p2, a2) :: st2 => (Next, (rev st2 ++ [(p2, a2 ++ [fmt ps p a])], fmt ps p a))
-                      end))
-        by (intros st0 cur0 p a E; mrun; rewrite (gen_format_eq ps p a E); mrun;
-            destruct st0 as [|[p2 a2] st2]; mrun; reflexivity);
-      rewrite (while_unwind ps C B Hc Hbs st _ cur x [])
-        by (rewrite app_length, rev_length; cbn; apply Nat.lt_succ_r, Nat.le_add_r)
+
+Lemma gen_str_eq ps t : gen_str ps t = Some (str_tree ps t).
+Proof. unfold gen_str. first [reflexivity | str_script ps]. Qed.
+
+(* ---------------------------------------------------------------- PrimitiveTree.from_string *)
+Section Read.
+  Variable sub : ty -> ty -> bool.
+  Variable mapping : list (string * node).
+
+  (* one iteration of the model's loop *)
+  Definition read_step (tok : string) (rt : list ty) (acc : list node) : option (list ty * list node) :=
+    if negb (nonempty tok) then Some (rt, acc) else
+    let type_ := match rt with [] => None | t :: _ => Some t end in
+    let rt' := match rt with [] => [] | _ :: q => q end in
+    match dget tok mapping with
+    | Some prim =>
+        if match type_ with Some t => negb (sub (node_ret prim) t) | None => false end then None
+        else Some (match prim with NPrim _ args _ => args ++ rt' | _ => rt' end, prim :: acc)
+    | None =>
+        match lit tok with
+        | None => None
+        | Some c =>
+            let t := match type_ with Some t => t | None => typeof c end in
+            if sub (typeof c) t then Some (rt', NConst c t :: acc) else None
+        end
     end.
-    reflexivity. }
-  change (@nil (node * list string), "") with (Gs ("", [])).
-  rewrite (for_sim Gs _ _ Hb). reflexivity.
+
+  Lemma read_loop_step tok r rt acc :
+    read_loop sub mapping (tok :: r) rt acc =
+    match read_step tok rt acc with Some (rt', acc') => read_loop sub mapping r rt' acc' | None => None end.
+  Proof.
+    unfold read_step. cbn [read_loop]. destruct (negb (nonempty tok)); [reflexivity|]. cbv zeta.
+    destruct (dget tok mapping) as [prim|].
+    - destruct (match match rt with [] => None | t :: _ => Some t end with
+                | Some t => negb (sub (node_ret prim) t) | None => false end); reflexivity.
+    - destruct (lit tok) as [c|]; [|reflexivity].
+      destruct (sub (typeof c) _); reflexivity.
+  Qed.
+
+  (* generic in the loop body: any body doing one model step per token *)
+  Lemma for_read (body : string -> list node * list ty -> option (ctl * (list node * list ty))) :
+    (forall tok rt acc, body tok (rev acc, rt) =
+       match read_step tok rt acc with Some (rt', acc') => Some (Next, (rev acc', rt')) | None => None end) ->
+    forall toks rt acc,
+      match for_ toks body (rev acc, rt) with Some (e, _) => Some e | None => None end
+      = read_loop sub mapping toks rt acc.
+  Proof.
+    intros Hb toks. induction toks as [|tok r IH]; intros rt acc; [reflexivity|].
+    rewrite read_loop_step. cbn [for_]. rewrite Hb.
+    destruct (read_step tok rt acc) as [[rt' acc']|]; [apply IH|reflexivity].
+  Qed.
+End Read.
+
+Lemma bind_fst {A B} (m : option (A * B)) :
+  bind m (fun '(e, _) => ret e) = match m with Some (e, _) => Some e | None => None end.
+Proof. destruct m as [[e r]|]; reflexivity. Qed.
+
+Ltac mcase :=
+  match goal with
+  | |- context [match dget ?k ?m with _ => _ end] => destruct (dget k m) eqn:?
+  | |- context [match lit ?s with _ => _ end] => destruct (lit s) eqn:?
+  | |- context [if ?sub ?a ?b then _ else _] => is_var sub; destruct (sub a b) eqn:?
+  | |- context [negb (?sub ?a ?b)] => is_var sub; destruct (sub a b) eqn:?
+  | |- context [if nonempty ?s then _ else _] => destruct (nonempty s) eqn:?
+  | |- context [negb (nonempty ?s)] => destruct (nonempty s) eqn:?
+  | |- context [match ?x with _ => _ end] => is_var x; destruct x
+  end.
+
+Ltac read_script sub s ps :=
+  cbv zeta; unfold read, re_split_seps;
+  match goal with |- bind (for_ _ ?body _) _ = _ =>
+    assert (Hb : forall tok rt acc, body tok (rev acc, rt) =
+       match read_step sub (ps_mapping ps) tok rt acc with
+       | Some (rt', acc') => Some (Next, (rev acc', rt')) | None => None end);
+    [ intros tok rt acc; unfold read_step, eval_token, new_Terminal, is_Primitive, attr_args, popleft_, dmem;
+      rewrite eqb_empty_nonempty;
+      repeat (mrun; try reflexivity; mcase); mrun; try reflexivity; congruence
+    | etransitivity; [apply bind_fst|]; apply (for_read sub (ps_mapping ps) _ Hb (split s) [] []) ]
+  end.
+
+Lemma gen_from_string_eq sub s ps : gen_from_string sub s ps = read sub (ps_mapping ps) s.
+Proof. unfold gen_from_string. first [reflexivity | read_script sub s ps]. Qed.
+
+(* ---------------------------------------------------------------- compile: the code string handed to eval *)
+Lemma gen_compile_code_eq t ps : gen_compile_code t ps = Some (code_of ps t).
+Proof.
+  unfold gen_compile_code.
+  first [ reflexivity
+        | cbv zeta; rewrite gen_str_eq; mrun; unfold code_of;
+          destruct (ps_arguments ps) as [|a l];
+          [ reflexivity | cbn [List.length Nat.ltb Nat.leb]; rewrite ?map_id; reflexivity ] ].
+Qed.
+
+(* what the model's compile does with that string: the tree's printed form is parsed as the body, the
+   parameters are the set's arguments *)
+Lemma compile_of_code {V} (cval : cst -> option V) ps ps' ctx t t' :
+  code_of ps t = code_of ps' t' -> ps_arguments ps = ps_arguments ps' ->
+  compile cval ps ctx t = compile cval ps' ctx t'.
+Proof.
+  unfold code_of, compile. intros H E. rewrite <- E in *. destruct (ps_arguments ps) as [|a l].
+  - now rewrite H.
+  - apply str_app_inv_head in H. apply str_app_inv_head in H. apply str_app_inv_head in H. now rewrite H.
+Qed.
+
+(* ---------------------------------------------------------------- PrimitiveSetTyped.renameArguments *)
+Section Rename.
+  Variable kargs : list (string * string).
+
+  Definition rename_step (i : nat) (ps : pset) : option pset :=
+    let old_name := nth i (ps_arguments ps) "" in
+    match dget old_name kargs with
+    | None => Some ps
+    | Some new_name =>
+        match dget old_name (ps_mapping ps) with
+        | Some (NArg j r) =>
+            Some (mkpset (set_nth i new_name (ps_arguments ps)) (set_nth j new_name (ps_argvalue ps))
+                         (ddel old_name (dset new_name (NArg j r) (ps_mapping ps))))
+        | _ => None
+        end
+    end.
+
+  Lemma rename_loop_step n i ps :
+    rename_loop kargs (S n) i ps =
+    match rename_step i ps with Some ps' => rename_loop kargs n (S i) ps' | None => None end.
+  Proof.
+    unfold rename_step. cbn [rename_loop]. cbv zeta.
+    destruct (dget (nth i (ps_arguments ps) "") kargs); [|reflexivity].
+    destruct (dget (nth i (ps_arguments ps) "") (ps_mapping ps)) as [[]|]; reflexivity.
+  Qed.
+
+  Lemma rename_step_len i ps ps' :
+    rename_step i ps = Some ps' -> List.length (ps_arguments ps') = List.length (ps_arguments ps).
+  Proof.
+    unfold rename_step. cbv zeta. destruct (dget _ kargs); [|now intros [= <-]].
+    destruct (dget _ (ps_mapping ps)) as [[]|]; try discriminate.
+    intros [= <-]. cbn. apply set_nth_length.
+  Qed.
+
+  Lemma for_rename (body : nat -> pset -> option (ctl * pset)) :
+    (forall i ps, i < List.length (ps_arguments ps) ->
+       body i ps = match rename_step i ps with Some ps' => Some (Next, ps') | None => None end) ->
+    forall n i ps, i + n = List.length (ps_arguments ps) -> for_ (seq i n) body ps = rename_loop kargs n i ps.
+  Proof.
+    intros Hb n. induction n as [|n IH]; intros i ps Hn; [reflexivity|].
+    rewrite rename_loop_step. cbn [seq for_]. rewrite Hb by lia.
+    destruct (rename_step i ps) as [ps'|] eqn:E; [|reflexivity].
+    apply IH. rewrite (rename_step_len _ _ _ E). lia.
+  Qed.
+End Rename.
+
+Lemma dmem_dset_keep {A} k k' (v : A) m : dmem k m = true -> dmem k (dset k' v m) = true.
+Proof.
+  unfold dmem. intro H. destruct (String.eqb_spec k k') as [->|Hne].
+  - now rewrite dget_dset_same.
+  - now rewrite dget_dset_other.
+Qed.
+
+Ltac rename_script ps kargs :=
+  cbv zeta; unfold rename, range_;
+  match goal with |- bind (for_ _ ?body _) _ = _ =>
+    assert (Hb : forall i ps, i < List.length (ps_arguments ps) ->
+       body i ps = match rename_step kargs i ps with Some ps' => Some (Next, ps') | None => None end);
+    [ intros i p Hi; unfold rename_step; cbv zeta;
+      rewrite (nth_error_nth' (ps_arguments p) "" Hi); mrun;
+      unfold dmem; destruct (dget (nth i (ps_arguments p) "") kargs) as [new|]; [|reflexivity]; mrun;
+      unfold setitem_; apply Nat.ltb_lt in Hi; rewrite Hi; mrun;
+      unfold set_mapping, set_arguments; cbn [ps_arguments ps_argvalue ps_mapping];
+      destruct (dget (nth i (ps_arguments p) "") (ps_mapping p)) as [o|] eqn:Eo; [|reflexivity]; mrun;
+      rewrite dget_dset_same; mrun;
+      destruct o; try reflexivity; cbn [set_attr_value bind ps_arguments ps_argvalue ps_mapping];
+      unfold ddel_, set_mapping, set_arguments; cbn [ps_arguments ps_argvalue ps_mapping];
+      rewrite dmem_dset_keep by (unfold dmem; now rewrite Eo); reflexivity
+    | rewrite (for_rename kargs _ Hb) by reflexivity;
+      destruct (rename_loop _ _ _ _); reflexivity ]
+  end.
+
+Lemma gen_renameArguments_eq ps kargs : gen_renameArguments ps kargs = rename kargs ps.
+Proof. unfold gen_renameArguments. first [reflexivity | rename_script ps kargs]. Qed.
+
+(* ---------------------------------------------------------------- compileADF *)
+Section AdfEquiv.
+  Variable V : Type.
+  Variable cval : cst -> option V.
+
+  Definition def_of_pair (p : fpset V * list node) : adfdef V :=
+    mkdef (fp_ps (fst p)) (fp_name (fst p)) (fp_ctx (fst p)) (snd p).
+
+  (* Python's None for "no tree compiled" and an exception are one value of the model *)
+  Definition flat {A} (r : option (option A)) : option A := match r with Some (Some k) => Some k | _ => None end.
+
+  Lemma flat_bind_snd {A B} (m : option (A * option B)) :
+    flat (bind m (fun '(_, f) => ret f)) = match m with Some (_, f) => f | None => None end.
+  Proof. destruct m as [[a [f|]]|]; reflexivity. Qed.
+
+  Lemma compile_shape ps ctx t k : compile cval ps ctx t = Some k ->
+    match ps_arguments ps with
+    | [] => exists v, k = KValue v
+    | _ => exists p b g, k = KLambda p b g
+    end.
+  Proof.
+    unfold compile. destruct (parse_expr _); [|discriminate].
+    destruct (ps_arguments ps).
+    - destruct (eval_expr _ _ _ _); [|discriminate]. intros [= <-]. eauto.
+    - destruct (_ && _); [|discriminate]. intros [= <-]. eauto.
+  Qed.
+
+  Lemma for_adf (body : fpset V * list node -> context V * option (compiled V) ->
+                        option (ctl * (context V * option (compiled V)))) :
+    (forall p adfdict func, body p (adfdict, func) =
+       match compile cval (fp_ps (fst p)) (dupdate (fp_ctx (fst p)) adfdict) (snd p) with
+       | Some k => Some (Next, (dset (fp_name (fst p)) (adf_obj cval k) adfdict, Some k))
+       | None => None
+       end) ->
+    forall l adfdict func,
+      match for_ l body (adfdict, func) with Some (_, f) => f | None => None end
+      = compile_adf_loop cval (map def_of_pair l) adfdict func.
+  Proof.
+    intros Hb l. induction l as [|p l IH]; intros adfdict func; [reflexivity|].
+    cbn [for_ map compile_adf_loop def_of_pair d_ps d_ctx d_tree d_name]. rewrite Hb.
+    destruct (compile _ _ _ _) as [k|]; [apply IH|reflexivity].
+  Qed.
+End AdfEquiv.
+Arguments def_of_pair {V} p.
+Arguments flat {A} r.
+
+Ltac adf_script cval :=
+  cbv zeta;
+  match goal with |- flat (bind (for_ _ ?body _) _) = _ =>
+    assert (Hb : forall p adfdict func, body p (adfdict, func) =
+       match compile cval (fp_ps (fst p)) (dupdate (fp_ctx (fst p)) adfdict) (snd p) with
+       | Some k => Some (Next, (dset (fp_name (fst p)) (adf_obj cval k) adfdict, Some k))
+       | None => None
+       end);
+    [ intros [p t] adfdict func; cbn [fst snd fp_set_ctx fp_ps fp_ctx fp_name];
+      destruct (compile cval (fp_ps p) _ t) as [k|] eqn:E; [|reflexivity]; mrun;
+      apply compile_shape in E;
+      destruct (ps_arguments (fp_ps p)); [destruct E as [v ->]|destruct E as (pp & b & g & ->)]; reflexivity
+    | rewrite <- map_rev; unfold reversed_;
+      etransitivity; [apply flat_bind_snd|]; apply (for_adf _ cval _ Hb) ]
+  end.
+
+Lemma gen_compileADF_eq {V} (cval : cst -> option V) expr psets :
+  flat (gen_compileADF cval expr psets) =
+  compile_adf_loop cval (rev (map def_of_pair (combine psets expr))) [] None.
+Proof.
+  unfold gen_compileADF.
+  first [ destruct (compile_adf_loop _ _ _ _); reflexivity | adf_script cval ].
+Qed.
+
+(* compileADF on the list of definitions the model takes *)
+Definition fp_of {V} (d : adfdef V) : fpset V := mkfp (d_ps d) (d_name d) (d_ctx d).
+Lemma gen_compileADF_defs {V} (cval : cst -> option V) defs :
+  flat (gen_compileADF cval (map d_tree defs) (map fp_of defs)) = compile_adf cval defs.
+Proof.
+  rewrite gen_compileADF_eq. unfold compile_adf. f_equal. f_equal.
+  induction defs as [|[p n c t] defs IH]; [reflexivity|]. cbn. now rewrite IH.
 Qed.
